@@ -584,6 +584,11 @@ def gen_native_op(rnd):
         lambda: ["set", "pl", rnd.choice([["pfx", 0], ["pfx", 1], ["pfx", 2], _P(rnd)])],
         lambda: ["set", "lb", ["l", [_tuple2(rnd, "coerce") for _ in range(rnd.randint(0, 3))]]],
         lambda: ["append", "lb", _tuple2(rnd, mode)],
+        lambda: ["set", rnd.choice(["er2", "ers", "era"]), rnd.choice([["fl", rnd.randrange(4)], ["fl", rnd.randrange(4)],
+                                                                       ["b", 0], ["n", 7], ["s", 0], _P(rnd)])],
+        lambda: ["validate", rnd.choice(["er2", "ers", "era"]), ["fl", rnd.randrange(4)]],
+        lambda: ["basetrait", "cyc"], lambda: ["basetrait", "cyc"],
+        lambda: ["vtrait", "cyc", _P(rnd)], lambda: ["basetrait", rnd.choice(["d_pfx", "same", "a", "tup"])],
         lambda: ["vkeep", "tup", _tuple2(rnd, mode)], lambda: ["vkeep", "tup", _tuple2(rnd, mode)],
         lambda: ["vkeep", "tup4", ["t", [_P(rnd), rnd.choice([_P(rnd), ["b", 0]]),
                                          rnd.choice([["n", 3], ["n", 2.5], ["s", 0], ["b", 1]]), rnd.choice([_P(rnd), ["s", 1]])]]],
@@ -612,6 +617,11 @@ def native_corpus():
         ["set", "dct", ["d", [[P0, P1], [["b", 0], ["s", 1]]]]], ["setitem", "dct", P2, 0], ["clear", "dct"],
         ["set", "st", ["set", [P0, P1]]], ["add", "st", P2], ["set", "ro", P0], ["set", "ro", P1],
         ["set", "inst", ["leaf", P0]], ["set", "inst", P0], ["del", "tup"], ["del", "tup4"], ["gc"],
+        ["set", "er2", ["fl", 0]], ["set", "er2", ["fl", 1]], ["set", "er2", ["fl", 2]], ["set", "er2", ["fl", 3]],
+        ["set", "ers", ["fl", 0]], ["set", "ers", ["fl", 2]], ["set", "era", ["fl", 0]], ["set", "era", ["fl", 3]],
+        ["validate", "er2", ["fl", 0]], ["validate", "era", ["fl", 0]], ["set", "ers", ["b", 0]],
+        ["basetrait", "cyc"], ["basetrait", "cyc"], ["basetrait", "cyc"], ["vtrait", "cyc", P0],
+        ["basetrait", "cyc"], ["basetrait", "d_pfx"],
         ["vkeep", "tup", ["t", [P0, ["n", 3]]]], ["vkeep", "tup", ["t", [P0, ["n", 1.5]]]], ["vkeep", "tup", ["t", [P0, ["s", 0]]]],
         ["vkeep", "tup4", ["t", [P0, P1, ["n", 2], P2]]], ["vkeep", "tup4", ["t", [P0, P0, ["s", 0], P2]]],
         ["vkeep", "tup4", ["t", [P0, P1, ["n", 2.5], P0]]], ["vkeep", "tint", ["t", [["b", 0], P1]]]])]
@@ -705,7 +715,7 @@ def native_stream(ctx, cases, sanitize=False, tag="native"):
         rep_case = dict(ops=cases[i]["ops"][:step + 1])
         ctx.fail(key, "native path: clause %s fails at step %d op %r (outcome %s): (object, refcount delta, held before, "
                  "held after) = %r; objects 0-3 instances, 4-5 run-time strings, 6-7 big ints, 8-9 delegate prefix strings, "
-                 "10-11 Map keys, 12-13 Map values, 14-15 Enum members"
+                 "10-11 Map keys, 12-13 Map values, 14-15 Enum members, 16-19 fresh floats, 20.. the class-level CTrait of `cyc`"
                  % (CLAUSE.get(clause, clause), step, op, obs[i][step]["out"], bad),
                  dict(kind="native", case=rep_case, step=step, clause=clause, sanitized=bool(sanitize),
                       impl_obs=obs[i][:step + 1]))
